@@ -40,6 +40,8 @@ def dataset(fam, ds):
     key = (fam, ds)
     if key in _DATA:
         return _DATA[key]
+    # data sets numbered 1_000_000 and up are the "other building": +25 F warmer and 3 times the usage
+    other = ds >= 1000000
     rng = random.Random(1000003 * ds + {"daily": 1, "billing": 2, "hourly": 3, "caltrack": 4}[fam])
     if fam == "daily":
         d = F.daily_frame(rng, noise=rng.choice([0.03, 0.1, 0.25]), weekend=rng.choice([1.0, 0.7]))
@@ -50,15 +52,25 @@ def dataset(fam, ds):
         col = d.columns.get_loc("observed")
         d.iloc[odd, col] = np.maximum(d.iloc[odd, col].to_numpy() + r.normal(0, 0.6 * float(d["observed"].mean()), 25), 0.5)
         r = F.daily_frame(rng, start="2023-01-01", ndays=90)
+        if other:
+            for fr in (d, r):
+                fr["temperature"] = fr["temperature"] + 25.0
+                fr["observed"] = fr["observed"] * 3.0
         out = (F.daily_baseline(d), F.daily_reporting(r))
     elif fam == "billing":
         m, t = F.billing_series(rng, noise=rng.choice([0.03, 0.1]))
         mr, tr = F.billing_series(rng, start="2023-01-10", nperiods=5)
+        if other:
+            m, mr, t, tr = m * 3.0, mr * 3.0, t + 25.0, tr + 25.0
         out = (F.billing_baseline(m, t), F.billing_reporting(mr, tr))
     elif fam == "hourly":
-        ghi = rng.random() < 0.3
-        h = F.hourly_frame(rng, noise=rng.choice([0.3, 0.5]), ghi=ghi)   # noisy enough for the clustering to be seed-sensitive
+        ghi = random.Random(ds % 1000000).random() < 0.3      # (a building and its "other" variant agree on having GHI)
+        h = F.hourly_frame(rng, noise=rng.choice([0.5, 0.6]), ghi=ghi)   # noisy enough for the clustering to be seed-sensitive
         hr = F.hourly_frame(rng, start="2023-02-01", ndays=21, ghi=ghi)
+        if other:
+            for fr in (h, hr):
+                fr["temperature"] = fr["temperature"] + 20.0
+                fr["observed"] = fr["observed"] * 3.0
         out = (F.hourly_baseline(h), F.hourly_reporting(hr))
     else:
         h = F.hourly_frame(rng, noise=0.05, ndays=365)
@@ -209,11 +221,18 @@ def main():
                     pr = m.predict(rep)
                 obs = {"pred": frame_sha(pr)}
             elif op["op"] == "new":
-                objs.append(new_model("hourly", op["cfg"], op.get("seed")))
+                objs.append(new_model(op.get("fam", "hourly"), op["cfg"], op.get("seed")))
                 obs = {}
             elif op["op"] == "fitobj":
-                base, rep = dataset("hourly", op["ds"])
-                obs = observe_hourly(objs[op["obj"]], base, rep)
+                fam = op.get("fam", "hourly")
+                base, rep = dataset(fam, op["ds"])
+                if fam == "hourly":
+                    obs = observe_hourly(objs[op["obj"]], base, rep)
+                else:
+                    m = objs[op["obj"]]
+                    m.fit(base, ignore_disqualification=True)
+                    js = m.to_json()
+                    obs = {"json": sha(js), "pred": frame_sha(m.predict(rep, ignore_disqualification=True)), "len": len(js)}
             elif op["op"] == "tojson":
                 objs[op["obj"]].to_json()
                 obs = {}
